@@ -14,7 +14,7 @@ from values import *
 
 SHORT = list(range(0, 32))
 LONG_QUICK = list(range(32, 66)) + [79, 80, 81, 95, 96, 97, 127, 128, 129, 255, 256, 257]
-LONG_THOROUGH = list(range(32, 260)) + [511, 512, 513, 1000, 1023, 1024, 1025, 2047, 2048, 2049, 4096]
+LONG_THOROUGH = list(range(32, 260)) + [511, 512, 513, 1000, 1023, 1024, 1025]
 
 
 _F = {}
